@@ -165,8 +165,18 @@ func xzCases(seed uint64, label uint64, count int, big bool) []xzCase {
 			k.Family = gen.Families[(i-105)/2]
 			k.Matcher = (i - 105) % 2
 		}
+		if i >= 200 && i%16 == 7 {
+			// whole lc/lp space; cases the library's Verify rejects are dropped below
+			k.LC, k.LP = r.Intn(9), r.Intn(5)
+		}
 		k.N = pickLen(r, k)
 		constrain(&k, big)
+		if k.LC+k.LP > 4 {
+			cfg := k.config()
+			if cfg.Verify() != nil {
+				continue
+			}
+		}
 		out = append(out, k)
 	}
 	return out
